@@ -1111,3 +1111,58 @@ def c12(ck):
                "packages on which the model's naive extractor leaves the target + built packages")
     ck.assumptions.append("the whole scratch tree (three levels above the target) is snapshotted; effects beyond it would be missed")
     ck.finish()
+
+
+# ------------------------------------------------------------------------------------ C04
+TRACE_MODULE["C04"] = "Trace_C04"
+
+
+@prop("C04")
+def c04(ck):
+    binary = vlib.build_harness()
+    thorough = ck.tier == "thorough"
+    # (MC_Parser ASSUMEs that every failure transition of the parser machine is the outcome of some header)
+    ck.add_tlc(vlib.mc("MC_Parser", "MC_Parser.cfg", ck.scratch, workers=8))
+    ck.extra["parser_error_transitions_covered"] = 6
+    cases = ck.scratch / "hostile_cases.ndjson"
+    ck.add_tlc(vlib.gen_cases("Gen_Hostile", "Gen_Hostile_thorough.cfg" if thorough else "Gen_Hostile_quick.cfg", ck.scratch, cases, timeout=1800, xmx="6g"))
+    def aborted(e):
+        e["exit"] = "abort(signal 6)"
+    def panicked(e):
+        e["results"] = e["results"] + ["panic"]
+    def hungry(e):
+        e["worst_peak"] = 1048576 + 64 * e["input_len"] + 1
+    events = stateless_check(
+        ck, binary, "c04", "Trace_C04", ["--cases", cases, "--mutants", 30000 if thorough else 2500],
+        [("Outcome", aborted), ("Outcome", panicked), ("Outcome", hungry)],
+        lambda e, r: (f"{e.get('family')}:{e.get('exit')}:" + (",".join(sorted({p['op'] + ' ' + p.get('msg', '')[:60] for p in e.get('panics', [])})) or
+                      (json.dumps(e.get('input'), sort_keys=True)[:200] if e.get('exit') != 'normal' else 'alloc'))) if e else "?",
+        shards=8, timeout=6000)
+    outs = [e for e in events if e["event"] == "Outcome"]
+    ck.evaluations = len(outs)
+    ck.nontrivial = sum(1 for e in outs if not e["accepted"]) + len({tuple(e["results"]) for e in outs})
+    fam = {}
+    for e in outs:
+        k = e["family"] + (":accepted" if e["accepted"] else ":rejected")
+        fam[k] = fam.get(k, 0) + 1
+    gen = [e for e in outs if e["family"] == "gen"]
+    ck.extra.update(inputs=fam, operations_run=sum(len(e["results"]) for e in outs),
+                    worst_allocation_ratio=round(max(e["worst_peak"] / (1048576 + 64 * e["input_len"]) for e in outs), 4),
+                    informational_model_lenient_vs_library={
+                        "model_ok_library_rejects": sum(1 for e in gen if e["input"]["predict"] == "ok" and not e["accepted"]),
+                        "model_err_library_accepts": sum(1 for e in gen if e["input"]["predict"] != "ok" and e["accepted"])})
+    ck.samples += [{k: e[k] for k in ("family", "case", "input_len", "exit", "accepted", "worst_peak", "results")} for e in outs[:2]]
+    if gen:
+        ck.samples.append(gen[len(gen) // 2]["input"])
+    ck.rule = ("inputs: TLC-generated boundary-value products (intro sizes, one entry with type 0..10 x offset x count boundary "
+               "classes x stores with / without terminators; wrongly typed / sized entries under every tag the accessors and "
+               "verifiers read, in both headers), every truncation (stride 3 quick, 1 thorough) and three single-byte "
+               "mutations per metadata byte of two small assets and a built signed package, seeded structure-aware mutants, "
+               "hostile uncompressed cpio payloads (every header field at boundary values, magics, stripped indexes, name "
+               "defects, truncations); per input: PackageMetadata::parse, Package::parse and on success every accessor, file "
+               "listing, Display, digest / signature verification with real verifiers, key ids, files() to exhaustion, write; "
+               "in a child process under RLIMIT_AS, alarm() and a counting allocator; non-trivial = rejected inputs + distinct "
+               "result vectors")
+    ck.assumptions += ["a panic inside a dependency (pgp, nom, decoders) reached through the library's API counts",
+                       "allocation bound K0 = 1 MiB + 64 bytes per input byte, per operation"]
+    ck.finish()
